@@ -208,14 +208,18 @@ pub fn spec_inv_keys(enc: &[[u8; 16]; 10]) -> [[u8; 16]; 10] {
 /// What the table backends' decrypt_block computes from the ten words dk it is given, in terms of the standard's S, L:
 ///   t = L^-1(b ^ dk_0);  t = L^-1(S^-1(t)) ^ dk_i (i = 1..8);  S^-1(t) ^ dk_9
 pub fn spec_dec_dk(dk: &[[u8; 16]; 10], b: &[u8; 16]) -> [u8; 16] {
-    let mut t = kz::l_inv(&kz::x(&dk[0], b));
+    let mut t = sd_first(&kz::x(&dk[0], b));
     let mut i = 1;
     while i < 9 {
-        t = kz::x(&dk[i], &kz::l_inv(&kz::s_inv(&t)));
+        t = kz::x(&dk[i], &sd_round(&t));
         i += 1;
     }
-    kz::x(&dk[9], &kz::s_inv(&t))
+    kz::x(&dk[9], &sd_last(&t))
 }
+/// the three stages of spec_dec_dk as named functions (so that composition obligations can replace them: see `tro`)
+pub fn sd_first(y: &[u8; 16]) -> [u8; 16] { kz::l_inv(y) }
+pub fn sd_round(t: &[u8; 16]) -> [u8; 16] { kz::l_inv(&kz::s_inv(t)) }
+pub fn sd_last(t: &[u8; 16]) -> [u8; 16] { kz::s_inv(t) }
 
 // With dk = spec_inv_keys(K) this is the standard's D (4.4.2) under K, for every K and block: additivity of L^-1, 8 times.
 // @ob name=l_dec_dk_is_standard props=C07 kind=lemma fn=bcref::kuznyechik::decrypt_with uses=l_linv_additive timeout=900
@@ -560,4 +564,69 @@ pub mod tuf {
         }
     }
     pub fn all_replayed() -> bool { unsafe { POS == N } }
+}
+
+/// Tagged transcript oracle on blocks (generalises `tuf`; cf. belt-block/lib.rs `tr`, sm4/rr_uf.rs).  While RECORDing, every
+/// call gets a fresh unconstrained answer and (tag, question, answer) is logged.  While REPLAYing, the p-th call must ask
+/// the logged question number SCHED[p] (identity unless the harness names another, concrete, schedule) with the same tag
+/// - this is ASSERTED - and receives the logged answer.  Sound for compositions that make the same calls (in the same or
+/// in a harness-named permuted order): equal questions get equal answers and nothing else is assumed, so what is proved
+/// holds for EVERY family of functions (one per tag), in particular for
+///      LS   = L o S          = `transform(., &ENC_TABLE)` of the table backends (their contract) = bcref lsx(k, a) at a ^ k
+///      LISI = L^-1 o S^-1    = `transform(., &DEC_TABLE)`
+///      S, SI = S, S^-1       = `sub_bytes(., &P)`, `sub_bytes(., &P_INV)`
+/// Linear in the number of calls (the Ackermann tables of `ruf` are quadratic and made the 10-round compositions time out).
+pub mod tro {
+    pub const MAXC: usize = 64;
+    pub const LS: usize = 1;
+    pub const LISI: usize = 2;
+    pub const S: usize = 3;
+    pub const SI: usize = 4;
+    pub static mut TAG: [usize; MAXC] = [0; MAXC];
+    pub static mut Q: [u128; MAXC] = [0; MAXC];
+    pub static mut OUT: [u128; MAXC] = [0; MAXC];
+    pub static mut SCHED: [usize; MAXC] = {
+        let mut s = [0; MAXC];
+        let mut i = 0;
+        while i < MAXC { s[i] = i; i += 1; }
+        s
+    };
+    pub static mut N: usize = 0;
+    pub static mut POS: usize = 0;
+    pub static mut REPLAY: usize = 0;
+    pub fn start_replay() { unsafe { REPLAY = 1; POS = 0; } }
+    /// the p-th replayed call repeats the recorded call number `rec`
+    pub fn sched(p: usize, rec: usize) { unsafe { SCHED[p] = rec; } }
+    pub fn recorded() -> usize { unsafe { N } }
+    pub fn all_replayed() -> bool { unsafe { POS == N } }
+    #[allow(static_mut_refs)]
+    pub fn ask(tag: usize, q: u128) -> u128 {
+        unsafe {
+            if REPLAY == 0 {
+                let y: u128 = kani::any();
+                assert!(N < MAXC);
+                TAG[N] = tag; Q[N] = q; OUT[N] = y; N += 1;
+                y
+            } else {
+                assert!(POS < N);
+                let r = SCHED[POS];
+                assert!(r < N);
+                assert!(TAG[r] == tag && Q[r] == q); // same question as the recorded call
+                POS += 1;
+                OUT[r]
+            }
+        }
+    }
+    fn w(a: &[u8; 16]) -> u128 { u128::from_le_bytes(*a) }
+    // ---- stand-ins for REFERENCE functions (bcref / the spec functions above), each with its justification
+    /// bcref lsx(k, a) = L(S(k ^ a)) by definition
+    pub fn lsx(k: &[u8; 16], a: &[u8; 16]) -> [u8; 16] { ask(LS, w(&bcref::kuznyechik::x(k, a))).to_le_bytes() }
+    pub fn s(a: &[u8; 16]) -> [u8; 16] { ask(S, w(a)).to_le_bytes() }
+    pub fn s_inv(a: &[u8; 16]) -> [u8; 16] { ask(SI, w(a)).to_le_bytes() }
+    /// sd_first(y) = L^-1(y) = (L^-1 o S^-1)(S(y))   (l_s_inverse: S^-1(S(y)) = y)
+    pub fn sd_first(y: &[u8; 16]) -> [u8; 16] { let t = ask(S, w(y)); ask(LISI, t).to_le_bytes() }
+    /// sd_round(t) = L^-1(S^-1(t)) by definition
+    pub fn sd_round(t: &[u8; 16]) -> [u8; 16] { ask(LISI, w(t)).to_le_bytes() }
+    /// sd_last(t) = S^-1(t) by definition
+    pub fn sd_last(t: &[u8; 16]) -> [u8; 16] { ask(SI, w(t)).to_le_bytes() }
 }
